@@ -414,6 +414,10 @@ func GenTx(t *rapid.T, p *Profile, pools *Pools, o TxOpts) *m.Tx {
 		}
 		tx.Body = append(tx.Body, m.BodyItem{P: GenPosting(t, p, pools, o)})
 	}
+	if rapid.IntRange(0, 6).Draw(t, "clast") == 0 && !p.off("comment.indented") && !p.off("comment.indented-last") {
+		// a comment line closing the transaction
+		tx.Body = append(tx.Body, m.BodyItem{C: GenComment(t, p, pools, !p.off("comment.indented-tag")), Indent: rapid.SampledFrom([]string{"    ", "  "}).Draw(t, "cindl")})
+	}
 	if !p.off("line.trailing-blanks") && rapid.IntRange(0, 7).Draw(t, "htrail") == 0 {
 		tx.Trail = rapid.SampledFrom([]string{" ", "  ", "\t"}).Draw(t, "htrailv")
 	}
